@@ -250,22 +250,29 @@ pub struct Hot {
   /// number of subscribe calls seen, in global order stamp (for late-subscription checks)
   pub subscribed_at: Arc<Mutex<Vec<usize>>>,
   pub clock: Arc<Mutex<usize>>,
+  /// events emitted synchronously inside every subscribe call (after the observer was registered)
+  pub greeting: Arc<Mutex<Vec<Ev>>>,
 }
 
 impl Hot {
   pub fn new(clock: Arc<Mutex<usize>>) -> Hot {
-    Hot { observers: Arc::new(Mutex::new(vec![])), subscribed_at: Arc::new(Mutex::new(vec![])), clock }
+    Hot { observers: Arc::new(Mutex::new(vec![])), subscribed_at: Arc::new(Mutex::new(vec![])), clock, greeting: Arc::new(Mutex::new(vec![])) }
   }
   pub fn observable(&self) -> Obs {
     let obs = self.observers.clone();
     let at = self.subscribed_at.clone();
     let clock = self.clock.clone();
+    let greeting = self.greeting.clone();
     let tok = sym::closure_token("source:hot");
     Observable::create(move |s: Observer<'static, Sym>| {
       let _t = &tok;
       burn();
-      obs.lock().unwrap().push(s);
+      obs.lock().unwrap().push(s.clone());
       at.lock().unwrap().push(*clock.lock().unwrap());
+      let g: Vec<Ev> = greeting.lock().unwrap().clone();
+      for e in g.iter() {
+        emit(&s, e);
+      }
     })
   }
   pub fn n_subscribed(&self) -> usize {
